@@ -218,6 +218,7 @@ def run(ctx: Ctx, repo: Repo, tier: str) -> None:
     ctx.attempt(_c04.rule_get_type, ctx, repo)
     ctx.attempt(_c04.rule_dict_type, ctx, repo)
     ctx.attempt(_c02.rule_return_table, ctx, repo)
+    ctx.attempt(_c02.rule_arg_capture, ctx, repo)  # exactly the named parameters are recorded, each with the type of its own value
     ctx.attempt(_c09.rule_query, ctx, repo)
     # the shipped rewriters never narrow (R-C07.1/2/3/7): the rewritten type is what the stub shows
     from . import c07 as _c07
